@@ -874,7 +874,7 @@ Section Safe.
   Theorem block_safe sty ops s w cs :
     sty <> SLeak -> Done s w -> (ncancel cs <= 1)%nat ->
     let '(o, s', w', cs') := exec (block cf async_api sty ops) s w cs in
-    Done s' w' /\ n_warn s' = n_warn s /\ (ncancel cs' <= 1)%nat.
+    Done s' w' /\ n_warn s' = n_warn s /\ (ncancel cs' <= 1)%nat /\ (o = Ok VUnit \/ o = Raise ECancelled).
   Proof.
     intros Hsty D Hc. destruct s as [q0 ov0 cu f cfy rc tx no ni nw om lg].
     assert (om = false) by (destruct D; auto). subst om.
@@ -882,7 +882,7 @@ Section Safe.
     destruct sty; [| |congruence]; cbn [block]; rewrite exec_seq, exec_spawn_false;
       destruct (exec (engine_connect cf) (mkpst q0 ov0 cu f cfy rc tx no ni nw false lg) w cs) as [[[o1 s1] w1] cs1];
       destruct Hconn as [(q1 & ov1 & c & no1 & ni1 & -> & -> & V & H1) | (-> & D1 & Hw & _ & H0)];
-      try (split; [exact D1|split; [exact Hw|lia]]).
+      try (split; [exact D1|split; [exact Hw|split; [lia|auto]]]).
     - (* async with engine.connect() as conn: the close is shielded *)
       rewrite exec_finally.
       pose proof (run_ops_S q1 ov1 c true no1 ni1 nw ops None lg w1 cs1 (v_room _ _ _ _ _ _ _ V)
@@ -892,21 +892,25 @@ Section Safe.
       pose proof (close_from_body q1 ov1 c true None no1 ni1 nw w1 o2 s2 w2 cs2 [] V P ltac:(cbn; lia)) as Q.
       destruct (exec (conn_close cf) s2 w2 []) as [[[o3 s3] w3] cs3].
       destruct Q as (Q1 & Q2 & Q3).
-      assert (Hcs2 : (ncancel cs2 <= 1)%nat).
-      { unfold body_post in P. destruct P as [(? & ? & _ & _ & _ & _ & [[_ ?]|[_ ?]]) | (? & ? & ? & _ & _ & _ & _ & ?)]; lia. }
-      destruct cs2 as [|[|eff] cs2']; cbn in Hcs2; destruct o3; cbn [fst snd]; lazy beta iota zeta;
-        (split; [exact Q1|split; [exact Q2|cbn; lia]]).
+      assert (Hcs2 : (ncancel cs2 <= 1)%nat /\ (o2 = Ok VUnit \/ o2 = Raise ECancelled)).
+      { unfold body_post in P. destruct P as [(? & ? & _ & _ & _ & _ & [[-> ?]|[-> ?]]) | (? & ? & ? & _ & _ & _ & -> & ?)];
+          split; auto; lia. }
+      destruct Hcs2 as [Hcs2 Ho2].
+      destruct Q3 as [[-> Q3]|[-> Q3]]; destruct cs2 as [|[|eff] cs2']; cbn in Hcs2; cbn [fst snd]; lazy beta iota zeta;
+        (split; [exact Q1|split; [exact Q2|split; [cbn; lia|auto]]]).
     - (* conn = await engine.connect(); try: ... finally: await conn.close() *)
       rewrite exec_finally.
       pose proof (run_ops_S q1 ov1 c true no1 ni1 nw ops None lg w1 cs1 (v_room _ _ _ _ _ _ _ V)
                     ltac:(discriminate) (v_open _ _ _ _ _ _ _ V) H1) as P.
       destruct (exec (run_ops cf async_api ops) (vstate q1 ov1 c true None no1 ni1 nw lg) w1 cs1) as [[[o2 s2] w2] cs2].
       rewrite exec_spawn_false.
-      assert (Hcs2 : (ncancel cs2 <= 1)%nat).
-      { unfold body_post in P. destruct P as [(? & ? & _ & _ & _ & _ & [[_ ?]|[_ ?]]) | (? & ? & ? & _ & _ & _ & _ & ?)]; lia. }
+      assert (Hcs2 : (ncancel cs2 <= 1)%nat /\ (o2 = Ok VUnit \/ o2 = Raise ECancelled)).
+      { unfold body_post in P. destruct P as [(? & ? & _ & _ & _ & _ & [[-> ?]|[-> ?]]) | (? & ? & ? & _ & _ & _ & -> & ?)];
+          split; auto; lia. }
+      destruct Hcs2 as [Hcs2 Ho2].
       pose proof (close_from_body q1 ov1 c true None no1 ni1 nw w1 o2 s2 w2 cs2 cs2 V P Hcs2) as Q.
       destruct (exec (conn_close cf) s2 w2 cs2) as [[[o3 s3] w3] cs3].
-      destruct Q as (Q1 & Q2 & [[-> Q3]|[-> Q3]]); (split; [exact Q1|split; [exact Q2|lia]]).
+      destruct Q as (Q1 & Q2 & [[-> Q3]|[-> Q3]]); (split; [exact Q1|split; [exact Q2|split; [lia|auto]]]).
   Qed.
 
   (* a Connection that was never closed is reclaimed by the collector: the weakref callback cannot
@@ -981,7 +985,7 @@ Section Safe.
         destruct L as (L1 & _ & L3). apply IH; auto.
       + pose proof (block_safe sty ops s w cs Hs D Hc) as B.
         destruct (exec (block cf async_api sty ops) s w cs) as [[[o1 s1] w1] cs1].
-        destruct B as (B1 & _ & B3).
+        destruct B as (B1 & _ & B3 & _).
         pose proof (gc_done s1 w1 [] B1) as G.
         destruct (exec (gc_collect cf) s1 w1 []) as [[[o2 s2] w2] cs2].
         destruct G as (_ & G1 & _). apply IH; auto.
